@@ -296,7 +296,16 @@ def rule_records(ck):
             sl = [x for x in ast.walk(v) if isinstance(x, ast.Subscript) and isinstance(x.slice, ast.Slice)]
             base_ok = isinstance(v, ast.Call) and isinstance(v.func, ast.Attribute) and (
                 v.func.attr == 'splitlines' or (v.func.attr == 'split' and v.args and const_value(v.args[0]) == '\n'))
-            if sl:
+            def _guarded_by_newline_test(x):
+                # data.split("\n")[:-1] is exact when (and only when) the text ends with a line terminator
+                for t_, pol in guards_of(x, f.node):
+                    if pol and isinstance(t_, ast.Call) and isinstance(t_.func, ast.Attribute) and t_.func.attr == 'endswith' \
+                            and t_.args and const_value(t_.args[0]) == '\n':
+                        return True
+                return False
+            if sl and all(_guarded_by_newline_test(x) and u(x.slice) == ':-1' for x in sl):
+                o.ok('the trailing empty field is dropped only when the text ends with a newline')
+            elif sl:
                 o.fail('the list of lines is sliced (`%s`): the last line of a text that does not end in a newline is dropped, so the last '
                        'record has four lines and is skipped' % u(sl[0])[:60])
             elif base_ok:
